@@ -479,7 +479,9 @@ fn model_plan(sc: &Scenario) -> ProcPlan {
     let (op_cost, parent_costs) = match sc.order {
         Order::ChildFirst => (0, vec![1_000_000]),
         _ => {
-            script.push(Op::Delay(1_000_000_000_000));
+            // long enough for the parent to get all its writes in first (each seam call costs
+            // one tick), short enough not to look like a hanging formatter to code with timeouts
+            script.push(Op::Delay(50));
             (1, vec![1])
         }
     };
